@@ -11,13 +11,23 @@
      Snapshot         one put    (WriteRunningEventFilter: the graceful stop, the process ends)
      Prune(end)       HashKeyedBatch_1 .. HashKeyedBatch_m ; RangeDeleteBatch   (pruner.PruneUpto,
                       started by the pruner service which first raises the in-memory floor)
-     Restart          mem := re-initialised from disk as RetentionFloor.Seed and (lazily)
-                      pruner.InitializeRunningEventFilter do
+     Restart          mem := re-initialised from disk as RetentionFloor.Seed does; the running
+                      event filter is NOT initialised yet
+     lazy init        the first Store / RevertHead / Snapshot / Query after a start runs
+                      core|pruner.InitializeRunningEventFilter INSIDE that operation, and the
+                      initialisation issues durable mutations of its own, BEFORE the operation's:
+                        delete of the snapshot it has just loaded ; direct put of a window that
+                        is completed while the filter is filled from the headers
      Query            an event query (read only; it is what fills the bloom-window cache)
 
    Every durable mutation has an outcome: "ok", "fail" (returns an error, nothing applied, the
    process lives on) or "crash" (applied, then the process is gone: mem is lost, only Restart is
    enabled).  A crash between two operations is Restart without Snapshot.
+   The fault plan of an operation is (outcome, at): `outcome` hits the at-th durable mutation the
+   operation issues, counting the mutations of the lazy initialisation first.  A fault inside the
+   initialisation ends the operation there: "fail" = the initialiser returns the error, the
+   operation reports it, the mutations before it stay applied, memory is as before and the NEXT
+   operation initialises again (FixInitRetry); "crash" = the first `at` mutations are on disk.
 
    Blocks are ids <<number, version>>; a number is stored again with a fresh version after a
    revert (a reorg).  Bloom windows: two windows are in scope, window 0 = numbers < Boundary and
@@ -43,6 +53,11 @@
                           (TRUE: every flushed batch also carries the range deletes up to the
                           block it reached, i.e. is a complete prune)
      FixCacheOnReorg      H1: the LRU of persisted windows is not invalidated by a reorg
+   Mechanisms of the initialisation that can fail (TRUE = the code as it is; FALSE must violate):
+     FixInitConsume       the error of the snapshot delete fails the initialisation (FALSE: it is
+                          ignored - the node runs on a snapshot that is still on disk)
+     FixInitRetry         a failed initialisation is retried by the next operation (FALSE: the
+                          error is latched and every later Store fails until restart)
 *)
 EXTENDS Integers, Sequences, FiniteSets, TLC
 
@@ -57,7 +72,8 @@ CONSTANTS
   PruneBatch,          \* blocks per hash-keyed prune batch (1 = targetBatchByteSize 1)
   EnableFaults,        \* FALSE: only outcome "ok" (fault-free operation sequences)
   EnablePrune,
-  FixMemAfterCommit, FixSnapshot, FixReorgWindow, FixPruneAtomicFloor, FixCacheOnReorg
+  FixMemAfterCommit, FixSnapshot, FixReorgWindow, FixPruneAtomicFloor, FixCacheOnReorg,
+  FixInitConsume, FixInitRetry
 
 VARIABLES
   disk,    \* durable state
@@ -77,6 +93,9 @@ Min(S) == CHOOSE x \in S : \A y \in S : x <= y
 Max(a, b) == IF a >= b THEN a ELSE b
 HasNum(S, n) == \E i \in S : i[1] = n
 NumsOf(S) == {i[1] : i \in S}
+
+\* result of an action; init = it ended inside the lazy initialisation of the running filter
+Res(k, n) == [kind |-> k, muts |-> n, init |-> FALSE]
 
 NoWin == [present |-> FALSE, c |-> {}]
 NoSnap == [present |-> FALSE, w |-> 0, next |-> 0, c |-> {}]
@@ -168,18 +187,55 @@ InitRfRaw(d) ==
        ELSE Rebuild(d)
 
 (* FixSnapshot: the initialiser deletes the snapshot as soon as it has read it (one more durable
-   mutation), so that only the start directly following a graceful stop can use it. *)
+   mutation, issued BEFORE any put of the fill), so that only the start directly following a
+   graceful stop can use it. *)
+InitDel(d) == FixSnapshot /\ d.height >= 0 /\ d.snap.present
+
 InitRf(d) ==
   LET r == InitRfRaw(d) IN
-  IF FixSnapshot /\ d.height >= 0 /\ d.snap.present
+  IF InitDel(d)
   THEN [r EXCEPT !.d = [r.d EXCEPT !.snap = NoSnap], !.puts = @ + 1]
   ELSE r
 
-(* ensureInit: lazy, once; a failed initialisation is sticky (initErr). *)
+(* number of durable mutations a lazy initialisation issues from (d, m) *)
+InitMuts(d, m) == IF m.rfInit THEN 0 ELSE InitRf(d).puts
+
+(* disk after the first j durable mutations of the initialisation: the delete comes first, then the
+   puts of the fill (at most one in this two-window scope: InitMutsBounded) *)
+InitPrefix(d, m, j) ==
+  IF m.rfInit \/ j <= 0 THEN d
+  ELSE LET r == InitRf(d) IN
+       IF j >= r.puts THEN r.d
+       ELSE [d EXCEPT !.snap = NoSnap]
+
+Inited(m, r) == [m EXCEPT !.rfInit = TRUE, !.rfErr = ~r.ok, !.rf = r.rf]
+
+(* ensureInit without a fault: lazy, once.  (Used by the invariants: what the next operation
+   would work with.) *)
 EnsureInit(d, m) ==
   IF m.rfInit THEN [d |-> d, m |-> m, puts |-> 0]
-  ELSE LET r == InitRf(d) IN
-       [d |-> r.d, m |-> [m EXCEPT !.rfInit = TRUE, !.rfErr = ~r.ok, !.rf = r.rf], puts |-> r.puts]
+  ELSE LET r == InitRf(d) IN [d |-> r.d, m |-> Inited(m, r), puts |-> r.puts]
+
+(* ensureInit under the fault plan (outcome, at).  stop = "no": the operation goes on with (d, m)
+   after `puts` mutations; "failed" / "crashed": it ended inside the initialisation. *)
+EnsureInitF(d, m, outcome, at) ==
+  IF m.rfInit THEN [d |-> d, m |-> m, puts |-> 0, stop |-> "no"]
+  ELSE LET r == InitRf(d)
+           hit == outcome # "ok" /\ 1 <= at /\ at <= r.puts IN
+       IF ~hit THEN [d |-> r.d, m |-> Inited(m, r), puts |-> r.puts, stop |-> "no"]
+       ELSE IF outcome = "crash"
+       THEN [d |-> InitPrefix(d, m, at), m |-> m, puts |-> at, stop |-> "crashed"]
+       ELSE IF ~FixInitConsume /\ InitDel(d) /\ at = 1
+       THEN \* the delete's error is ignored: the initialisation goes on over the undeleted snapshot
+            LET raw == InitRfRaw(d) IN
+            [d |-> raw.d, m |-> Inited(m, raw), puts |-> raw.puts + 1, stop |-> "no"]
+       ELSE [d |-> InitPrefix(d, m, at - 1),
+             m |-> IF FixInitRetry THEN m ELSE [m EXCEPT !.rfInit = TRUE, !.rfErr = TRUE],
+             puts |-> at, stop |-> "failed"]
+
+(* a failed initialisation is not latched (ensureInit leaves lazyDone unset): memory is as before
+   the attempt, the next operation tries again *)
+Settle(m) == IF m.rfErr /\ FixInitRetry THEN [m EXCEPT !.rfInit = FALSE, !.rfErr = FALSE, !.rf = ZeroRf] ELSE m
 
 FreshMem(d) == [rfInit |-> FALSE, rfErr |-> FALSE, rf |-> ZeroRf, cache |-> NoWin, floor |-> SeedFloor(d)]
 
@@ -221,55 +277,78 @@ Init ==
   /\ ver = [n \in Nums |-> IF n <= InitH THEN 2 ELSE 1]
   /\ ops = 0
   /\ act = [name |-> "Init", outcome |-> "ok", n |-> 0]
-  /\ res = [kind |-> "ok", muts |-> 0]
+  /\ res = Res("ok", 0)
 
 Outcomes == IF EnableFaults THEN {"ok", "fail", "crash"} ELSE {"ok"}
 Ready == alive /\ ~pc.active /\ ops < MaxOps
 Dead(d) == [FreshMem(d) EXCEPT !.rfInit = FALSE]
 
+(* the fault plan (outcome, at) is well-formed for an operation whose lazy initialisation issues
+   `initMuts` mutations and which issues `own` (0 or 1) mutations itself *)
+PlanOK(outcome, at, initMuts, own) ==
+  IF outcome = "ok" THEN at = 0 ELSE 1 <= at /\ at <= initMuts + own
+
+(* outcome of the operation's own mutation (the (e.puts + 1)-th) under the plan *)
+Own(outcome, at, e) == IF outcome # "ok" /\ at = e.puts + 1 THEN outcome ELSE "ok"
+
+(* the operation ended inside the lazy initialisation; stops: the process ends whatever happens
+   (the graceful stop) *)
+InitStopped(e, stops) ==
+  /\ disk' = e.d
+  /\ IF e.stop = "failed" /\ ~stops
+     THEN mem' = e.m /\ alive' = TRUE
+     ELSE mem' = Dead(e.d) /\ alive' = FALSE
+  /\ res' = [kind |-> e.stop, muts |-> e.puts, init |-> TRUE]
+
 (* result of one single-mutation operation whose batch/put turns d into dNew and memory into mNew
    when it commits; mFail is the memory left behind by a failed commit. *)
 Commit(outcome, d, dNew, mNew, mFail, puts) ==
   CASE outcome = "ok" -> /\ disk' = dNew /\ mem' = mNew /\ alive' = TRUE
-                         /\ res' = [kind |-> "ok", muts |-> puts + 1]
+                         /\ res' = Res("ok", puts + 1)
     [] outcome = "fail" -> /\ disk' = d /\ mem' = mFail /\ alive' = TRUE
-                           /\ res' = [kind |-> "failed", muts |-> puts + 1]
+                           /\ res' = Res("failed", puts + 1)
     [] outcome = "crash" -> /\ disk' = dNew /\ mem' = Dead(dNew) /\ alive' = FALSE
-                            /\ res' = [kind |-> "crashed", muts |-> puts + 1]
+                            /\ res' = Res("crashed", puts + 1)
 
 Invalidate(m) == [m EXCEPT !.rfInit = FALSE, !.rfErr = FALSE, !.rf = ZeroRf]
 
 \* ------------------------------------------------------------------ Store
-Store(outcome) ==
+Store(outcome, at) ==
   /\ Ready
-  /\ LET e == EnsureInit(disk, mem)
+  /\ PlanOK(outcome, at, InitMuts(disk, mem), 1)
+  /\ LET e == EnsureInitF(disk, mem, outcome, at)
          d == e.d
          m == e.m
+         own == Own(outcome, at, e)
          n == d.height + 1 IN
      /\ n <= MaxH /\ ver[n] <= MaxVer
-     /\ LET id == <<n, ver[n]>>
+     /\ act' = [name |-> "Store", outcome |-> outcome, n |-> n]
+     /\ ops' = ops + 1 /\ pc' = pc
+     /\ IF e.stop # "no" THEN InitStopped(e, FALSE) /\ ver' = ver
+        ELSE
+        LET id == <<n, ver[n]>>
             r == RfInsert(m.rf, id) IN
-        /\ act' = [name |-> "Store", outcome |-> outcome, n |-> n]
-        /\ ops' = ops + 1 /\ pc' = pc
-        /\ IF m.rfErr \/ ~r.ok
+        IF m.rfErr \/ ~r.ok
            THEN \* the closure fails (inside the filter update) before anything is committed
-                /\ outcome = "ok"
+                /\ own = "ok"
                 /\ disk' = d /\ alive' = TRUE /\ ver' = ver
-                /\ mem' = IF FixMemAfterCommit /\ ~m.rfErr THEN Invalidate(m) ELSE m
-                /\ res' = [kind |-> "error", muts |-> e.puts]
+                /\ mem' = IF FixMemAfterCommit /\ ~m.rfErr THEN Invalidate(m) ELSE Settle(m)
+                /\ res' = Res("error", e.puts)
            ELSE LET d1 == AddBlock(d, id)
                     d2 == IF r.ww.present THEN [d1 EXCEPT !.win = r.ww] ELSE d1
                     mNew == [m EXCEPT !.rf = r.rf]
                     mFail == IF FixMemAfterCommit THEN Invalidate(m) ELSE mNew IN
-                /\ Commit(outcome, d, d2, mNew, mFail, e.puts)
-                /\ ver' = IF outcome = "fail" THEN ver ELSE [ver EXCEPT ![n] = @ + 1]
+                /\ Commit(own, d, d2, mNew, mFail, e.puts)
+                /\ ver' = IF own = "fail" THEN ver ELSE [ver EXCEPT ![n] = @ + 1]
 
 \* ------------------------------------------------------------------ RevertHead
-Revert(outcome) ==
+Revert(outcome, at) ==
   /\ Ready
-  /\ LET e == EnsureInit(disk, mem)
+  /\ PlanOK(outcome, at, InitMuts(disk, mem), 1)
+  /\ LET e == EnsureInitF(disk, mem, outcome, at)
          d == e.d
          m == e.m
+         own == Own(outcome, at, e)
          h == d.height IN
      /\ h >= 0 /\ d.com # {}
      /\ (h > Oldest(d)) \/ (Genesis /\ h = 0 /\ Oldest(d) = 0)   \* at least one retained block stays
@@ -278,17 +357,19 @@ Revert(outcome) ==
         /\ id \in d.hist /\ id \in d.su /\ id \in d.hdr  \* not explored: reverting a prune-damaged block
         /\ act' = [name |-> "Revert", outcome |-> outcome, n |-> h]
         /\ ops' = ops + 1 /\ pc' = pc /\ ver' = ver
-        /\ IF m.rfErr \/ ~r.ok
-           THEN /\ outcome = "ok"
+        /\ IF e.stop # "no" THEN InitStopped(e, FALSE)
+           ELSE IF m.rfErr \/ ~r.ok
+           THEN /\ own = "ok"
                 /\ disk' = d /\ alive' = TRUE
-                /\ mem' = IF FixMemAfterCommit /\ ~m.rfErr THEN Invalidate(m) ELSE [m EXCEPT !.rf = r.rf]
-                /\ res' = [kind |-> "error", muts |-> e.puts]
+                /\ mem' = IF m.rfErr THEN Settle(m)
+                          ELSE IF FixMemAfterCommit THEN Invalidate(m) ELSE [m EXCEPT !.rf = r.rf]
+                /\ res' = Res("error", e.puts)
            ELSE LET d1 == DelBlock(d, id)
                     d2 == IF r.crossed /\ FixReorgWindow THEN [d1 EXCEPT !.win = NoWin] ELSE d1
                     mNew == [m EXCEPT !.rf = r.rf,
                                       !.cache = IF FixCacheOnReorg THEN NoWin ELSE @]
                     mFail == IF FixMemAfterCommit THEN Invalidate(m) ELSE [m EXCEPT !.rf = r.rf] IN
-                Commit(outcome, d, d2, mNew, mFail, e.puts)
+                Commit(own, d, d2, mNew, mFail, e.puts)
 
 \* ------------------------------------------------------------------ SetL1Head, Snapshot
 SetL1(n, outcome) ==
@@ -299,21 +380,25 @@ SetL1(n, outcome) ==
 
 (* the graceful stop: WriteRunningEventFilter (one put), then the process ends whatever the
    outcome of the put; only Restart is enabled afterwards *)
-Snapshot(outcome) ==
+Snapshot(outcome, at) ==
   /\ Ready
-  /\ LET e == EnsureInit(disk, mem)
+  /\ PlanOK(outcome, at, InitMuts(disk, mem), 1)
+  /\ LET e == EnsureInitF(disk, mem, outcome, at)
          d == e.d
          m == e.m
+         own == Own(outcome, at, e)
          dNew == [d EXCEPT !.snap = [present |-> TRUE, w |-> m.rf.w, next |-> m.rf.next, c |-> m.rf.c]] IN
      /\ act' = [name |-> "Snapshot", outcome |-> outcome, n |-> 0]
-     /\ ops' = ops + 1 /\ pc' = pc /\ ver' = ver /\ alive' = FALSE
-     /\ IF m.rfErr
-        THEN /\ outcome = "ok" /\ disk' = d /\ mem' = Dead(d)
-             /\ res' = [kind |-> "error", muts |-> e.puts]
-        ELSE /\ disk' = IF outcome = "fail" THEN d ELSE dNew
-             /\ mem' = Dead(disk')
-             /\ res' = [kind |-> IF outcome = "fail" THEN "failed" ELSE IF outcome = "crash" THEN "crashed" ELSE "ok",
-                        muts |-> e.puts + 1]
+     /\ ops' = ops + 1 /\ pc' = pc /\ ver' = ver
+     /\ IF e.stop # "no" THEN InitStopped(e, TRUE)
+        ELSE /\ alive' = FALSE
+             /\ IF m.rfErr
+                THEN /\ own = "ok" /\ disk' = d /\ mem' = Dead(d)
+                     /\ res' = Res("error", e.puts)
+                ELSE /\ disk' = IF own = "fail" THEN d ELSE dNew
+                     /\ mem' = Dead(disk')
+                     /\ res' = Res(IF own = "fail" THEN "failed" ELSE IF own = "crash" THEN "crashed" ELSE "ok",
+                                   e.puts + 1)
 
 \* ------------------------------------------------------------------ Restart, Query
 Restart ==
@@ -322,17 +407,22 @@ Restart ==
   /\ ops' = IF alive THEN ops + 1 ELSE ops
   /\ alive' = TRUE /\ pc' = Idle /\ ver' = ver /\ disk' = disk
   /\ mem' = FreshMem(disk)
-  /\ res' = [kind |-> "ok", muts |-> 0]
+  /\ res' = Res("ok", 0)
 
-Query ==
+(* an event query issues no durable mutation of its own: only those of the lazy initialisation can
+   be hit *)
+Query(outcome, at) ==
   /\ Ready /\ disk.height >= 0 /\ disk.com # {}
-  /\ LET e == EnsureInit(disk, mem)
+  /\ PlanOK(outcome, at, InitMuts(disk, mem), 0)
+  /\ LET e == EnsureInitF(disk, mem, outcome, at)
          q == QueryOf(e.d, e.m) IN
-     /\ act' = [name |-> "Query", outcome |-> "ok", n |-> 0]
-     /\ ops' = ops + 1 /\ pc' = pc /\ ver' = ver /\ alive' = TRUE
-     /\ disk' = e.d
-     /\ mem' = IF e.m.rfErr THEN e.m ELSE [e.m EXCEPT !.cache = q.cache]
-     /\ res' = [kind |-> IF e.m.rfErr \/ ~q.ok THEN "error" ELSE "ok", muts |-> e.puts]
+     /\ act' = [name |-> "Query", outcome |-> outcome, n |-> 0]
+     /\ ops' = ops + 1 /\ pc' = pc /\ ver' = ver
+     /\ IF e.stop # "no" THEN InitStopped(e, FALSE)
+        ELSE /\ alive' = TRUE
+             /\ disk' = e.d
+             /\ mem' = IF e.m.rfErr THEN Settle(e.m) ELSE [e.m EXCEPT !.cache = q.cache]
+             /\ res' = Res(IF e.m.rfErr \/ ~q.ok THEN "error" ELSE "ok", e.puts)
 
 \* ------------------------------------------------------------------ Prune
 (* The pruner service (onNewL1Head with Retained = 0 and an L1 head event for block `end`):
@@ -345,12 +435,12 @@ PruneStart(end) ==
   /\ mem' = [mem EXCEPT !.floor = Max(@, end - 1)]
   /\ LET start == Oldest(disk) IN
      IF disk.com = {} \/ start >= end
-     THEN /\ pc' = Idle /\ res' = [kind |-> "noop", muts |-> 0]
+     THEN /\ pc' = Idle /\ res' = Res("noop", 0)
      ELSE IF start > 0 /\ ~HasNum(disk.hdr, start - 1)
-     THEN /\ pc' = Idle /\ res' = [kind |-> "error", muts |-> 0]
+     THEN /\ pc' = Idle /\ res' = Res("error", 0)
      ELSE /\ pc' = [active |-> TRUE, start |-> start, end |-> end, cur |-> start, stage |-> "hash",
                     first |-> TRUE, muts |-> 0]
-          /\ res' = [kind |-> "started", muts |-> 0]
+          /\ res' = Res("started", 0)
 
 PruneStep(outcome) ==
   /\ alive /\ pc.active
@@ -386,26 +476,28 @@ PruneStep(outcome) ==
                                    !.first = FALSE, !.muts = @ + 1] IN
      IF pc.stage = "hash" /\ ~readable
      THEN /\ outcome = "ok" /\ disk' = d /\ mem' = mem /\ alive' = TRUE /\ pc' = Idle
-          /\ res' = [kind |-> "error", muts |-> pc.muts]
+          /\ res' = Res("error", pc.muts)
      ELSE CASE outcome = "ok" ->
                  /\ disk' = dNew /\ mem' = mem /\ alive' = TRUE /\ pc' = pcNext
-                 /\ res' = [kind |-> IF done THEN "ok" ELSE "step", muts |-> pc.muts + 1]
+                 /\ res' = Res(IF done THEN "ok" ELSE "step", pc.muts + 1)
             [] outcome = "fail" ->
                  /\ disk' = d /\ mem' = mem /\ alive' = TRUE /\ pc' = Idle
-                 /\ res' = [kind |-> "failed", muts |-> pc.muts + 1]
+                 /\ res' = Res("failed", pc.muts + 1)
             [] outcome = "crash" ->
                  /\ disk' = dNew /\ mem' = Dead(dNew) /\ alive' = FALSE /\ pc' = Idle
-                 /\ res' = [kind |-> "crashed", muts |-> pc.muts + 1]
+                 /\ res' = Res("crashed", pc.muts + 1)
+
+Ats == 0..3    \* fault positions: at most two mutations of the initialisation + the operation's own
 
 Next ==
-  \/ \E o \in Outcomes : Store(o)
-  \/ \E o \in Outcomes : Revert(o)
+  \/ \E o \in Outcomes, at \in Ats : Store(o, at)
+  \/ \E o \in Outcomes, at \in Ats : Revert(o, at)
   \/ \E o \in Outcomes, n \in Nums : SetL1(n, o)
-  \/ \E o \in Outcomes : Snapshot(o)
+  \/ \E o \in Outcomes, at \in Ats : Snapshot(o, at)
   \/ \E end \in Nums : PruneStart(end)
   \/ \E o \in Outcomes : PruneStep(o)
   \/ Restart
-  \/ Query
+  \/ \E o \in Outcomes, at \in Ats : Query(o, at)
 
 Spec == Init /\ [][Next]_vars
 
@@ -458,11 +550,20 @@ StateReadsCorrect ==
              (n >= mem.floor /\ Len(disk.state) = disk.height + 1) =>
                \A k \in (n + 1)..disk.height : IdAt(disk, k) \in disk.hist
 
-(* a failed write applies nothing (the lazy initialisation of the running filter, which may issue
-   its own durable put before the operation's batch, is not part of the failed write) *)
+(* a failed write applies nothing: the mutations the operation issued BEFORE the failed one (those of
+   the lazy initialisation of the running filter) stay applied, the failed one and everything the
+   operation would have issued after it do not *)
 FailedWriteAppliesNothing ==
   [][res'.kind = "failed" =>
-       disk' = IF act'.name \in {"Store", "Revert", "Snapshot"} THEN EnsureInit(disk, mem).d ELSE disk]_vars
+       disk' = IF act'.name \in {"Store", "Revert", "Snapshot", "Query"}
+               THEN InitPrefix(disk, mem, res'.muts - 1) ELSE disk]_vars
+
+(* a failed initialisation leaves memory as it was: it is tried again by the next operation *)
+FailedInitIsRetried ==
+  [][(res'.kind = "failed" /\ res'.init /\ alive') => (mem' = mem /\ ~mem'.rfInit)]_vars
+
+(* the initialisation issues at most two durable mutations in this two-window scope (InitPrefix) *)
+InitMutsBounded == (alive /\ ~pc.active) => InitMuts(disk, mem) <= 2
 
 (* a restart (new objects on the same store) changes nothing durable; what it re-derives in memory
    is judged by MemAgreesWithDisk / NextStoreSucceeds / StateReadsCorrect right after it *)
